@@ -171,7 +171,9 @@ func init() {
 			})
 		a := hm["alive"]
 		c.mayRow(a, "C02/alive/self-only-refute", "an alive claim from the network about the local node never rewrites the local record or gossips the foreign claim: the only reaction is a refutation",
-			func(e *gea.Effect) bool { return (strings.HasPrefix(e.Class, "W:") && e.Class != "W:nodes") || e.Class == "BCAST" }, func(g getf, e *gea.Effect) bool {
+			func(e *gea.Effect) bool {
+				return (strings.HasPrefix(e.Class, "W:") && e.Class != "W:nodes") || e.Class == "BCAST"
+			}, func(g getf, e *gea.Effect) bool {
 				if e.Seen["MAPINS"] == 0 && !aliveFound(g) {
 					return true // initialising a placeholder; judged by the insert rule below
 				}
